@@ -171,7 +171,8 @@ func (msg MsgInitiateTokenWithdrawal) Validate(ac address.Codec) error {
 		return sdkerrors.ErrInvalidAddress.Wrap("to address cannot be empty")
 	}
 
-	if !msg.Amount.IsValid() || !msg.Amount.IsPositive() {
+	// the amount must fit in 64 bits, otherwise the withdrawal could never be finalized on l1
+	if !msg.Amount.IsValid() || !msg.Amount.IsPositive() || !msg.Amount.Amount.IsUint64() {
 		return ErrInvalidAmount
 	}
 
